@@ -177,6 +177,8 @@ class Sim:
             return ~self.ev(e.args[0], env) & ((1 << w) - 1)
         if op == 'mux':
             return self.ev(e.args[1], env) if self.ev(e.args[0], env) else self.ev(e.args[2], env)
+        if op == 'ongoing' and '$st' in env:
+            return int(env['$st'].get(e.args[0]) == e.args[1])
         if op in ('+', '-', '&', '|', '^', '*') or op in CMP:
             vals = [self.ev(a, env) for a in e.args]
             if op == '+':
@@ -278,6 +280,7 @@ class Sim:
         """one clock cycle: (all signal values of this cycle, next FSM states, next register values[, winning assignments])"""
         env = dict(regs)
         env.update(inp)
+        env['$st'] = st                    # for fsm.ongoing(...) read as a value
         comb = {n: self._reset(n) for n in self.comb_names}
         for _ in range(8):
             env.update(comb)
